@@ -379,7 +379,7 @@ long n_storage(bool thorough) { return (long)storage_nms(thorough).size() * kPha
 
 }  // namespace
 
-static long vertex_ncases(const std::string& tier) { bool th = (tier == "thorough"); return n_storage(th) + (th ? 240 : 3); }
+static long vertex_ncases(const std::string& tier) { bool th = (tier == "thorough"); return n_storage(th) + (th ? 720 : 3); }
 
 static void vertex_run(Ctx& c) {
     const long ns = n_storage(c.thorough());
